@@ -172,8 +172,14 @@ SS_CASES = ['kundur/kundur_full.xlsx', 'ieee14/ieee14_full.xlsx', 'kundur/kundur
 
 @st.composite
 def ss_cases(draw):
-    return dict(path=draw(st.sampled_from(SS_CASES)), line=draw(st.integers(0, 40)), dur=draw(st.sampled_from([0.005, 0.01, 0.02])),
-                method=draw(st.sampled_from(['trapezoid', 'backeuler'])))
+    c = dict(path=draw(st.sampled_from(SS_CASES)), line=draw(st.integers(0, 40)), dur=draw(st.sampled_from([0.005, 0.01, 0.02])),
+             method=draw(st.sampled_from(['trapezoid', 'backeuler'])))
+    if draw(st.booleans()):
+        # a perturbation along a drawn direction of the state space (weights cycled over the differential states), applied
+        # between two segments of a run that has been at rest for 0.1 s
+        c.update(kick='state', dir=draw(st.lists(st.integers(-3, 3), min_size=8, max_size=40).filter(lambda w: any(w))),
+                 eps=draw(st.sampled_from([1e-4, 3e-4, 1e-3])))
+    return c
 
 
 def ss_run(c, tstep):
@@ -185,8 +191,10 @@ def ss_run(c, tstep):
             ss.models[m].u.v = [0 for _ in ss.models[m].u.v]
     lidx = list(ss.Line.idx.v)
     dev = lidx[c['line'] % len(lidx)]
-    ss.add('Toggle', dict(idx='K0', model='Line', dev=dev, t=0.1))
-    ss.add('Toggle', dict(idx='K1', model='Line', dev=dev, t=round(0.1 + c['dur'], 4)))
+    state_kick = c.get('kick') == 'state'
+    if not state_kick:
+        ss.add('Toggle', dict(idx='K0', model='Line', dev=dev, t=0.1))
+        ss.add('Toggle', dict(idx='K1', model='Line', dev=dev, t=round(0.1 + c['dur'], 4)))
     ss.setup()
     if not ss.PFlow.run():
         return None
@@ -213,7 +221,29 @@ def ss_run(c, tstep):
         return np.concatenate(out) if out else np.zeros(0)
     mon.watch['flags'] = flags
     mon.attach()
-    ok = ss.TDS.run()
+    if state_kick:
+        ss.TDS.config.tf = 0.1
+        ok = ss.TDS.run()
+        dae = ss.dae
+        n = dae.n
+        dyn = np.where(T != 0)[0]
+        zer = np.where(T == 0)[0]
+        w = np.array([c['dir'][i % len(c['dir'])] for i in range(len(dyn))], dtype=float)
+        if not w.any():
+            w[0] = 1.0
+        dx = c['eps'] * w / np.max(np.abs(w)) * np.maximum(np.abs(x_eq[dyn]), 0.05)
+        # algebraic variables (and zero-time-constant states) moved consistently to first order; Newton does the rest
+        A = np.block([[J['fx'], J['fy']], [J['gx'], J['gy']]])
+        alg = np.concatenate([zer, np.arange(n, n + dae.m)]).astype(int)
+        dz = -np.linalg.solve(A[np.ix_(alg, alg)], A[np.ix_(alg, dyn)] @ dx)
+        dae.x[dyn] += dx
+        dae.x[zer] += dz[:len(zer)]
+        dae.y[:] += dz[len(zer):]
+        ss.TDS.fg_update(ss.exist.pflow_tds)     # the integrator takes the derivative at the start of a step from dae.f
+        ss.TDS.config.tf = 1.5
+        ok = ok and ss.TDS.run()
+    else:
+        ok = ss.TDS.run()
     return dict(ok=bool(ok), J=J, T=T, x_eq=x_eq, t=np.array([r['t'] for r in mon.stored]), x=np.array([r['x'] for r in mon.stored]),
                 names=list(ss.dae.x_name),
                 limiter_activity=any(len(r.get('pegged', [])) for r in mon.stored) or
@@ -242,8 +272,13 @@ def ss_case(ctx, c):
         return
     As = np.diag(1 / T[dyn]) @ (A[np.ix_(dyn, dyn)] - A[np.ix_(dyn, alg)] @ np.linalg.solve(A22, A[np.ix_(alg, dyn)]))
     t = r1['t']
-    t1 = round(0.1 + c['dur'], 4) + 1e-4
-    k1 = int(np.argmin(np.abs(t - t1)))
+    if c.get('kick') == 'state':
+        ctx.count('ss:kick=state_direction')
+        k1 = int(np.argmax(t > 0.1 + 1.5 / 120))      # two steps after the perturbation
+    else:
+        ctx.count('ss:kick=line_trip')
+        t1 = round(0.1 + c['dur'], 4) + 1e-4
+        k1 = int(np.argmin(np.abs(t - t1)))
     x1 = r1['x'][k1][dyn] - r1['x_eq'][dyn]
     exc = float(np.max(np.abs(r1['x'][:, dyn] - r1['x_eq'][dyn])))
     if exc < 1e-3:
